@@ -378,6 +378,35 @@ impl WeakLinkFilter {
     }
 }
 
+/// Verification hooks (feature `verif-hooks`, OFF by default): seed / read the
+/// per-link hysteresis memory from the external harness crates. Add-only.
+#[cfg(feature = "verif-hooks")]
+impl WeakLinkFilter {
+    pub fn vh_set_memory(
+        &mut self,
+        conn_id: u64,
+        prev_weak: bool,
+        delay_weak_streak: u32,
+        weak_streak: u32,
+        probation_ticks: u32,
+    ) {
+        self.prev_weak.insert(conn_id, prev_weak);
+        self.delay_weak_streak.insert(conn_id, delay_weak_streak);
+        self.weak_streak.insert(conn_id, weak_streak);
+        self.probation_ticks.insert(conn_id, probation_ticks);
+    }
+
+    /// (prev_weak, delay_weak_streak, weak_streak, probation_ticks); `None` = no memory.
+    pub fn vh_memory(&self, conn_id: u64) -> (Option<bool>, Option<u32>, Option<u32>, Option<u32>) {
+        (
+            self.prev_weak.get(&conn_id).copied(),
+            self.delay_weak_streak.get(&conn_id).copied(),
+            self.weak_streak.get(&conn_id).copied(),
+            self.probation_ticks.get(&conn_id).copied(),
+        )
+    }
+}
+
 fn derive_max_delay_budget(longest_rtt_ms: u32) -> u32 {
     let raw = (longest_rtt_ms as f64 * RTT_TO_DELAY_BUDGET_MULT) as u32;
     raw.clamp(MIN_BUDGET_MS, MAX_BUDGET_MS)
